@@ -54,3 +54,10 @@ Definition pair_eqb {A B} (ea : A -> A -> bool) (eb : B -> B -> bool)
 
 Fixpoint existsb_in {A} (eqb : A -> A -> bool) (x : A) (l : list A) : bool :=
   match l with [] => false | y :: r => eqb x y || existsb_in eqb x r end.
+
+Fixpoint forall2b {A B} (f : A -> B -> bool) (l1 : list A) (l2 : list B) : bool :=
+  match l1, l2 with
+  | [], [] => true
+  | x :: r1, y :: r2 => f x y && forall2b f r1 r2
+  | _, _ => false
+  end.
